@@ -5,6 +5,7 @@ import (
 	"fmt"
 	"net/url"
 	"strconv"
+	"strings"
 
 	cid "github.com/ipfs/go-cid"
 )
@@ -176,6 +177,15 @@ func AddParamsFromQuery(query url.Values) (*AddParams, error) {
 	err = parseIntParam(query, "cid-version", &params.CidVersion)
 	if err != nil {
 		return nil, err
+	}
+
+	// CIDv0 only supports sha2-256. Like go-ipfs, move to CIDv1 when
+	// another hash function is requested and the version was not given.
+	if strings.ToLower(params.HashFun) != "sha2-256" && params.CidVersion == 0 {
+		if query.Get("cid-version") != "" {
+			return nil, errors.New("CIDv0 only supports the sha2-256 hash function")
+		}
+		params.CidVersion = 1
 	}
 
 	// This mimics go-ipfs behaviour.
